@@ -203,9 +203,33 @@ func c13SigOf(p string, depth int) string {
 
 type c13Mon struct {
 	pre   map[string]string // leaf path -> signature before post-processing
+	kind  map[string]string // leaf path -> "reg" (regular file / directory) | "link", before post-processing
+	occ   map[string]int    // how many file leaves name this path
+	psDir string
+	alias []string // aliased leaves whose recorded value is another output's location
 	fails []string
 	leafs int // non-null file leaves that had content
 	nulls int
+}
+
+func newC13Mon(psDir string) *c13Mon {
+	return &c13Mon{pre: map[string]string{}, kind: map[string]string{}, occ: map[string]int{}, psDir: psDir}
+}
+
+// record notes what a file leaf's path holds before post-processing.
+func (m *c13Mon) record(v *c13J) {
+	if v.K != 'q' || v.S == "" || !filepath.IsAbs(v.S) {
+		return
+	}
+	m.occ[v.S]++
+	m.pre[v.S] = c13SigOf(v.S, 0)
+	if info, err := os.Lstat(v.S); err == nil {
+		if info.Mode()&os.ModeSymlink != 0 {
+			m.kind[v.S] = "link"
+		} else {
+			m.kind[v.S] = "reg"
+		}
+	}
 }
 
 func (m *c13Mon) failf(f string, a ...interface{}) {
@@ -316,6 +340,16 @@ func (m *c13Mon) walk(where string, mem c13Member, pre, post *c13J, outsDir stri
 			m.failf("%s: value of an existing file became %s", where, post.canon())
 		} else if got := c13SigOf(post.S, 0); got != sig {
 			m.failf("%s: recorded value %s does not hold the content of %s", where, post.S, pre.S)
+		} else if m.kind[pre.S] == "reg" && strings.Contains(filepath.Clean(pre.S), m.psDir) && post.S != dest {
+			// strict reading: the value of a moved file is its OWN derived path
+			if m.occ[pre.S] > 1 {
+				if len(m.alias) < 4 {
+					m.alias = append(m.alias, fmt.Sprintf("%s: file %s is bound to %d outputs; this one is reachable at %s but its recorded value is %s",
+						where, pre.S, m.occ[pre.S], dest, post.S))
+				}
+			} else {
+				m.failf("%s: recorded value %s is not the output's own location %s", where, post.S, dest)
+			}
 		}
 	case "a":
 		if pre.K != 'A' {
@@ -683,13 +717,9 @@ func c13Direct(c *Ctx, r *Result, idx int, seed int64, nearMiss, overlap bool, c
 		outs.Vals = append(outs.Vals, g.value(p.Ty, p.Id))
 	}
 	cs := &c13Contents{}
-	mon := &c13Mon{pre: map[string]string{}}
+	mon := newC13Mon(ps)
 	for i, p := range params {
-		c13Leaves(p, outs.Vals[i], func(_ c13Member, v *c13J) {
-			if v.K == 'q' && v.S != "" && filepath.IsAbs(v.S) {
-				mon.pre[v.S] = c13SigOf(v.S, 0)
-			}
-		})
+		c13Leaves(p, outs.Vals[i], func(_ c13Member, v *c13J) { mon.record(v) })
 	}
 	before := c13Snapshot([]string{root}, cs, nil)
 
@@ -703,39 +733,43 @@ func c13Direct(c *Ctx, r *Result, idx int, seed int64, nearMiss, overlap bool, c
 	if anyFile {
 		os.MkdirAll(outsPath, 0o775)
 	}
-	var realText bytes.Buffer
-	realText.WriteByte('{')
 	var errs []string
 	panicked := ""
-	for i, p := range stage.OutParams.List {
-		val := []byte(outs.Vals[i].String())
-		var frag []byte
-		k := p.IsFile()
-		if (k == syntax.KindIsFile || k == syntax.KindIsDirectory) && string(val) != "null" {
-			func() {
-				defer func() {
-					if e := recover(); e != nil {
-						panicked = fmt.Sprint(e)
+	runReal := func() string {
+		var realText bytes.Buffer
+		realText.WriteByte('{')
+		for i, p := range stage.OutParams.List {
+			val := []byte(outs.Vals[i].String())
+			var frag []byte
+			k := p.IsFile()
+			if (k == syntax.KindIsFile || k == syntax.KindIsDirectory) && string(val) != "null" {
+				func() {
+					defer func() {
+						if e := recover(); e != nil {
+							panicked = fmt.Sprint(e)
+						}
+					}()
+					var err error
+					frag, err = core.VerifMoveOutFiles(&p.StructMember, val, lookup, ps, outsPath)
+					if err != nil {
+						errs = append(errs, err.Error())
 					}
 				}()
-				var err error
-				frag, err = core.VerifMoveOutFiles(&p.StructMember, val, lookup, ps, outsPath)
-				if err != nil {
-					errs = append(errs, err.Error())
-				}
-			}()
-		} else {
-			frag = val
+			} else {
+				frag = val
+			}
+			if i > 0 {
+				realText.WriteByte(',')
+			}
+			kb, _ := json.Marshal(p.Id)
+			realText.Write(kb)
+			realText.WriteByte(':')
+			realText.Write(frag)
 		}
-		if i > 0 {
-			realText.WriteByte(',')
-		}
-		kb, _ := json.Marshal(p.Id)
-		realText.Write(kb)
-		realText.WriteByte(':')
-		realText.Write(frag)
+		realText.WriteByte('}')
+		return strings.ReplaceAll(realText.String(), "[\n", "[")
 	}
-	realText.WriteByte('}')
+	realStr := runReal()
 	after := c13Snapshot([]string{root}, cs, nil)
 	tags := make([]string, 0, len(g.tags))
 	inDomain := true
@@ -767,7 +801,6 @@ func c13Direct(c *Ctx, r *Result, idx int, seed int64, nearMiss, overlap bool, c
 		r.violate(Violation{Kind: "property", Key: "C13:panic", What: "moveOutFiles panicked: " + panicked, Input: cas})
 		return true
 	}
-	realStr := strings.ReplaceAll(realText.String(), "[\n", "[")
 
 	// ---- property monitor on the real result ----
 	post, perr := c13ParseJSON([]byte(realStr))
@@ -788,6 +821,14 @@ func c13Direct(c *Ctx, r *Result, idx int, seed int64, nearMiss, overlap bool, c
 			}
 			r.violate(Violation{Kind: "property", Key: c13FailKey(params, outs, tags), What: "outputs not materialised faithfully: " + strings.Join(mon.fails, "; "),
 				Input: cas, Impl: strings.ReplaceAll(realStr, root, "$ROOT"), Expect: "every non-null file leaf readable under outs/<derived name> with the stage's content; same shape; other values unchanged"})
+		}
+		if len(mon.alias) > 0 {
+			r.hist("direct:alias-value-points-at-other-output")
+			for i := range mon.alias {
+				mon.alias[i] = strings.ReplaceAll(mon.alias[i], root, "$ROOT")
+			}
+			r.violate(Violation{Kind: "property", Key: "C13:alias-record-points-at-first", What: strings.Join(mon.alias, "; "),
+				Input: cas, Impl: strings.ReplaceAll(realStr, root, "$ROOT")})
 		}
 	} else if overlap && g.tags["overlap"] && perr == nil {
 		for _, p := range params {
@@ -837,6 +878,56 @@ func c13Direct(c *Ctx, r *Result, idx int, seed int64, nearMiss, overlap bool, c
 		}
 		r.violate(Violation{Kind: "correspondence", Key: "C13:model-tree", Broken: "correspondence moveOut (file tree)",
 			What: "file tree after post-processing differs between the real code and the model", Input: cas, Impl: d})
+	}
+	// ---- interrupted post-process + restart: the same record once more on the resulting tree ----
+	if idx%4 == 1 && inDomain {
+		r.hist("direct:second-pass")
+		realStr2 := runReal()
+		after2 := c13Snapshot([]string{root}, cs, nil)
+		if panicked != "" {
+			r.violate(Violation{Kind: "property", Key: "C13:panic", What: "moveOutFiles panicked on the second pass: " + panicked, Input: cas})
+			return true
+		}
+		if post2, err := c13ParseJSON([]byte(realStr2)); err != nil {
+			r.violate(Violation{Kind: "property", Key: "C13:invalid-json", What: "second pass: rewritten record is not valid JSON: " + err.Error(),
+				Input: cas, Impl: strings.ReplaceAll(realStr2, root, "$ROOT")})
+		} else {
+			mon2 := newC13Mon(ps)
+			mon2.pre, mon2.kind, mon2.occ = mon.pre, mon.kind, mon.occ
+			for _, p := range params {
+				mon2.walk(p.Id, p, outs.get(p.Id), post2.get(p.Id), outsPath)
+			}
+			if len(mon2.alias) == 0 && len(mon.alias) > 0 {
+				r.hist("direct:second-pass:aliased-value-now-own-path")
+			}
+			if len(mon2.fails) > 0 {
+				for i := range mon2.fails {
+					mon2.fails[i] = strings.ReplaceAll(mon2.fails[i], root, "$ROOT")
+				}
+				r.violate(Violation{Kind: "property", Key: "C13:materialise-after-restart",
+					What:  "after post-processing the same record a second time (interrupted post-process + restart): " + strings.Join(mon2.fails, "; "),
+					Input: cas, Impl: strings.ReplaceAll(realStr2, root, "$ROOT")})
+			}
+		}
+		reply2 := c.Drv.Ask("C13.run", "o2", "g", hx(ps), hx(outsPath), c13EncParams(params), outs.encStr(), before.enc(c13Ancestors(root)))
+		parts2 := strings.Split(reply2, "\t")
+		if len(parts2) == 2 {
+			if m2 := unhx(parts2[0]); m2 != realStr2 {
+				r.violate(Violation{Kind: "correspondence", Key: "C13:model-json-restart", Broken: "correspondence moveOut, second pass (rewritten JSON)",
+					What: "second pass over the same record: rewritten JSON differs between the real code and the model", Input: cas,
+					Impl: strings.ReplaceAll(realStr2, root, "$ROOT"), Model: strings.ReplaceAll(m2, root, "$ROOT")})
+			}
+			if d := c13TreeDiff(after2, c13ParseTree(parts2[1]), []string{root}); len(d) > 0 {
+				if len(d) > 8 {
+					d = d[:8]
+				}
+				for i := range d {
+					d[i] = strings.ReplaceAll(d[i], root, "$ROOT")
+				}
+				r.violate(Violation{Kind: "correspondence", Key: "C13:model-tree-restart", Broken: "correspondence moveOut, second pass (file tree)",
+					What: "second pass over the same record: file tree differs between the real code and the model", Input: cas, Impl: d})
+			}
+		}
 	}
 	if idx%400 == 0 {
 		r.sample(map[string]interface{}{"direct": cas.Outs, "types": c13EncParams(params), "result": strings.ReplaceAll(realStr, root, "$ROOT")})
